@@ -1238,6 +1238,16 @@ def r_fixpoint(ctx) -> RuleResult:
                 break
     if not drivers:
         raise AnalysisError("R-FIXPOINT: no function refines by the partition attribute (anchor vanished)")
+    # a helper that performs one step for another function of the closure (no loop, no recursion of its own) is part of
+    # that function's iteration, not a driver: the stability test lives in its caller
+    canon = entry(ctx, "canonicalize")
+    wrappers = []
+    for fi in drivers:
+        callers = [cs.caller for cs in ctx.cg.callers_of(fi.fq) if cs.caller.fq not in (canon.fq, fi.fq) and cs.caller.fq in {f.fq for f in closure(ctx, "canonicalize")}]
+        if callers:
+            wrappers.append(fi)     # its results go to another function of the pipeline, which may be the one that tests stability
+    if wrappers:
+        raise AnalysisError(f"R-FIXPOINT: the refinement step is wrapped by {wrappers[0].qualname}; the iteration around it is not of a form this rule reads")
     for fi in drivers:
         _check_driver(ctx, fi, step, res)
     return res
@@ -1279,10 +1289,12 @@ def _check_driver(ctx, fi: FuncInfo, step: FuncInfo, res: RuleResult):
 
     for node, e in outs:
         if not isinstance(e, ast.Name):
-            # handing out step(...) directly without a stability test
-            res.inst(fi.fq, short(node), "fail")
-            res.fail(Finding("R-FIXPOINT", fi.module.rel, fi.qualname, norm(node), "a partition is handed out without a stability test", line=node.lineno))
-            continue
+            if isinstance(e, ast.Call) and _is_step_call(ctx, fi, e, step) is not None:
+                # handing out step(...) directly without a stability test
+                res.inst(fi.fq, short(node), "fail")
+                res.fail(Finding("R-FIXPOINT", fi.module.rel, fi.qualname, norm(node), "a partition is handed out without a stability test", line=node.lineno))
+                continue
+            raise AnalysisError(f"R-FIXPOINT: cannot relate `{short(node)}` in {fi.qualname} to the refinement step")
         var = e.id
         on = cfg.node_of(node)
         verdict = None
